@@ -837,6 +837,56 @@ def register_history(prop, components):
         ORACLES.setdefault(prop, []).append(("history:" + cname, f))
 
 
+# ---------------------------------------------------------------------------------------
+# C01: the Jacobian a real component reports vs Richardson-extrapolated central differences of its own compute()
+# ---------------------------------------------------------------------------------------
+def jacobian_case(name, rng, tier):
+    from .specs import SPECS
+    from . import suites
+    from .core import comp_jacobian, fd_jacobian, dense_from_blocks, comp_outputs, flat_cat
+    sp = SPECS[name]
+    if not sp["jac"]:
+        raise Discard()
+    nx, ny = _pick_size(rng, tier)
+    ny = max(ny, sp["min_ny"])
+    sym = bool(sp["sym_opts"][int(rng.integers(len(sp["sym_opts"])))])
+    c = suites.component_case(name, rng, nx, ny, sym)
+    if not c.get("jac", True):
+        raise Discard()
+    inputs = dict(c["inputs"]); extra = dict(c.get("extra_inputs", {}))
+    allin = dict(inputs); allin.update(extra)
+    outs = c["outputs"]; innames = list(inputs)
+    prob = comp_problem(c["factory"](), allin)
+    real = comp_outputs(prob, outs)
+    osz = {o: real[o].size for o in outs}; isz = {i: np.asarray(inputs[i]).size for i in innames}
+    J = dense_from_blocks(comp_jacobian(prob, outs, innames), outs, innames, osz, isz)
+    # finite differences w.r.t. the differentiated inputs only (extra inputs are held fixed)
+    Jfd = fd_jacobian(c["factory"], allin, outs)
+    cols = []
+    off = 0
+    for k in allin:
+        n = np.asarray(allin[k]).size
+        if k in inputs:
+            cols += list(range(off, off + n))
+        off += n
+    Jfd = Jfd[:, cols]
+    fv = flat_cat(real, outs); xv = flat_cat(inputs, innames)
+    ok, msg = core.close_jac(J, Jfd, rtol=5e-4, fvals=fv, xvals=xv, noise=1e-6)
+    if ok:
+        return []
+    return [_fail("reported derivatives differ from finite differences of the component's own compute()", msg, "equal",
+                  component=name, nx=nx, ny=ny, symmetry=sym, branch=c.get("branch"))]
+
+
+def register_jacobian(prop, components):
+    if any(n.startswith("fd:") for n, _ in ORACLES.get(prop, [])):
+        return
+    for cname in components:
+        def f(rng, tier, cname=cname):
+            return jacobian_case(cname, rng, tier)
+        ORACLES.setdefault(prop, []).append(("fd:" + cname, f))
+
+
 class Discard(Exception):
     """raised by an oracle when the generated case is outside the property's quantifier"""
 from . import oracles_aero  # noqa: F401,E402
